@@ -11,7 +11,10 @@ Correspondence, every run:
     functions on stub operators and compared entry by entry with Model/Lut.lean; the Lean reference kernels
     (leakyReluRef, hardSwishRef, requantizeRef) judge the implementation's own tables;
   * sigmoid / tanh tables: the Lean handler evaluates the same formula with Lean `Float` (same libm); entries are
-    compared, +-1 differences are classified by the distance of the unrounded value from a rounding tie.
+    compared, +-1 differences are classified by the distance of the unrounded value from a rounding tie;
+  * harness/c19_more.py: SoftMax.generate_exp_table (model Model/SoftmaxTable.lean, reference Spec/SoftmaxRef.lean), the lut.py float
+    generators and the int16 SOFTMAX constants (Lean Float, validated), sibling runs with equal quantisation, Quantize folding through
+    the whole compiler; the RSQRT table is judged by the TFLite reference kernel of Spec/RsqrtRef.lean (rsqrtchk).
 """
 import linecache
 import math
@@ -24,6 +27,7 @@ import traceback
 import warnings
 
 import common
+import c19_more
 from common import Check, main_wrapper
 
 I32MIN, I32MAX = -(1 << 31), (1 << 31) - 1
@@ -291,6 +295,8 @@ def main():
             both = ck.model(["fpboth %s %s" % (rp["fn"], " ".join(map(str, rp["args"])))], parallel=False)[0]
             print(f"replay fp {rp['fn']}{tuple(rp['args'])} operands as {rp['typing']}: implementation={real}  model|reference={both}")
             sys.exit(0 if real == both.split(" | ")[0] else 1)
+        if rp.get("kind") == "softmax_exp":
+            sys.exit(c19_more.replay_softmax(ck, np, rp))
         print("replay: table cases are re-run by `./check C19 quick` with the recorded seed:", rp.get("seed_hint", ck.seed))
         sys.exit(0)
 
@@ -681,6 +687,8 @@ def main():
                 if len(cap) >= 1:
                     case["model_req"] = f"lut rsqrt {zi} {zo} {cap[0][0]} {cap[0][1]}"
                     cfg["captured"] = cap[:1]
+                # TFLite reference Rsqrt kernel incl. its own derivation of the multiplier from the two float32 scales
+                case["chk_prefix"] = "rsqrtchk %d %d %d %d" % (zi, zo, *(struct.unpack("<I", struct.pack("<f", float(np.float32(v))))[0] for v in (si, so)))
             else:
                 optype = Op.Sigmoid if kind == "sigmoid" else Op.Tanh
 
@@ -735,6 +743,22 @@ def main():
         model_ok = mout.startswith("ok")
         model_vals = [int(v) for v in mout.split()[1:]] if model_ok else None
         chk = touts[c["ci"]] if c["ci"] is not None else None
+        chk_key = None
+        if kind == "rsqrt" and chk is not None and cfg.get("captured"):
+            # the multiplier the code derived from the two scales against the reference's derivation (float32 sqrt and product,
+            # double reciprocal, QuantizeMultiplier): equal tables can hide a multiplier that is wrong in its low bits
+            mm = re.search(r"mult (-?\d+) shift (-?\d+)", chk)
+            if mm and [int(mm.group(1)), int(mm.group(2))] != list(cfg["captured"][0]) and (kind, "mult") not in tab_reported:
+                tab_reported.add((kind, "mult"))
+                ck.violation(f"create_lut_rsqrt_int8_op: output multiplier {cfg['captured'][0]} differs from the TFLite reference derivation "
+                             f"1. / (sqrtf(input_scale) * output_scale) -> QuantizeMultiplier = ({mm.group(1)}, {mm.group(2)}); scales {cfg['ifm_scale']!r}, {cfg['ofm_scale']!r}"
+                             f"{'' if chk.startswith('1 ') else '; table verdict ' + chk[:80]}",
+                             {"kind": "table", **cfg, "reference_verdict": chk[:200]}, found_input=chk.startswith("0 index"))
+        if kind == "rsqrt" and chk is not None:
+            if chk.startswith("1 "):
+                chk = "1"
+            elif chk.startswith("0 zero-input-only") and cfg["zp_in"] != -128:
+                chk_key = "rsqrt-lut-zero-input-entry-not-max-unless-zp-in-is-minus-128"
         if kind == "hswish":
             ck.count("hswish_relu_shift_%s" % ("lt31" if cfg["relu_shift"] < 31 else ("eq31" if cfg["relu_shift"] == 31 else "gt31")))
         if kind in ("sigmoid", "tanh"):
@@ -782,12 +806,18 @@ def main():
         if same:
             if chk is not None and chk not in ("1", "na"):
                 # model and code agree, reference kernel differs: a proof obligation (model = reference) must have failed too
-                if (kind, "ref") not in tab_reported:
-                    tab_reported.add((kind, "ref"))
+                if (kind, "ref", chk_key) not in tab_reported:
+                    tab_reported.add((kind, "ref", chk_key))
                     ck.violation(f"{kind} table differs from the Lean reference kernel ({chk}) although model and code agree",
-                                 {"kind": "table", **cfg, "reference_verdict": chk, "table": c["real"][:512]})
+                                 {"kind": "table", **cfg, "reference_verdict": chk, "table": c["real"][:512]}, key=chk_key)
             if chk is not None:
                 ck.count(f"table_{kind}_reference_{'ok' if chk == '1' else ('na' if chk == 'na' else 'reject')}")
+            continue
+        if (kind == "rsqrt" and chk == "1" and c["status"] == "ok" and model_ok and
+                all(a == b or j - 128 <= cfg["zp_in"] for j, (a, b) in enumerate(zip(c["real"], model_vals)))):
+            # the TFLite reference accepts the whole table and it differs from Model/Lut.lean (transcription of the unrepaired code) only at
+            # entries for real input <= 0: finding rsqrt-lut-zero-input-entry-not-max-... is repaired in this tree (verif_patches/C19-11)
+            ck.count("table_rsqrt_zero_input_code_follows_reference")
             continue
         # disagreement: classify
         key = None
@@ -810,6 +840,12 @@ def main():
 
     for k, v in float_diffs.items():
         ck.count("float_tables_" + k, v)
+
+    # ---------------- C. table generators outside the graph optimiser's integer tables (harness/c19_more.py) -----------
+    more = {"softmax_exp": c19_more.softmax_exp_stream(ck, np), "lut_ops": c19_more.lut_op_streams(ck, np),
+            "siblings": c19_more.sibling_stream(ck, np),
+            "quantize_pipeline": c19_more.quantize_fold_pipeline_stream(ck, np)}
+    n_eval += sum(m["evaluations"] for m in more.values())
     n_tab_nontrivial = len({(c["kind"], c.get("model_req")) for c in tab_cases if c.get("model_req")})
     ck.sample({"request": reqs[0], "lean(model | reference)": outs[0]})
     ck.sample({"request": reqs[len(reqs) // 2], "lean(model | reference)": outs[len(reqs) // 2]})
@@ -819,7 +855,8 @@ def main():
     unreached = sorted({"err:assert", "err:value", "err:overflow"} - reached)
     ck.finish({
         "evaluations": n_eval + sum(len(c.get("real") or []) for c in tab_cases),
-        "distinct_nontrivial": n_fp_nontrivial + n_tab_nontrivial,
+        "distinct_nontrivial": n_fp_nontrivial + n_tab_nontrivial + sum(m["distinct"] for m in more.values()),
+        "more_table_streams": more,
         "rule": "fp case = (function, operand values) evaluated by model, reference and the real function under each operand typing; "
                 "non-trivial when the model accepts it and a data operand is outside {-1,0,1}; distinct by (function, values). "
                 "table case = one (kind, dtype, scales, scale type, zero points, alpha, zero-point type) configuration, 256 entries (48 constants for Quantize, "
@@ -834,7 +871,12 @@ def main():
         "unreached_branches": unreached + (["Err.overflow in downscale_multiplier_int32_to_int16 is proved unreachable (downscale_ok)"] if "err:overflow" in unreached else []),
         "trusted_base_extra": ["Lean `Float` = host IEEE-754 double; Float.exp/Float.tanh = the libm Python's math module uses (sigmoid/tanh tables are validated, not proved)",
                                "gemmlowp/TFLite reference kernels transcribed from memory into Spec/Gemmlowp.lean (sources not available offline)",
-                               "(multiplier, shift) pairs are captured from the real scaling.quantise_scale (property C09 covers their correctness)"],
+                               "(multiplier, shift) pairs are captured from the real scaling.quantise_scale (property C09 covers their correctness)",
+                               "Lean Float/Float32 arithmetic in the handlers: the double product beta*scale of the softmax model (the reference recomputes it exactly), "
+                               "the float32 sqrt/product of the RSQRT and int16-SOFTMAX multiplier references, the lut.py float tables (Handlers/LutFloat.lean, series erf)",
+                               "TFLite PreprocessSoftmaxScaling / CalculateInputRadius / GetInvSqrtQuantizedMultiplierExp / RsqrtEvalQuantized / gen_lut transcribed from memory "
+                               "(the inverse-sqrt transcription reproduces all 255 RSQRT_LUT constants, gen_lut all 1024 words of the int16 SOFTMAX tables)",
+                               "harness/netgen.py serialiser and harness/fbwalk.py reader for the pipeline-level Quantize folding stream"],
     }, assumptions=[
         "Python `//` by a positive int is floor division; `>>` on Python/NumPy signed ints is arithmetic; `&` with a non-negative mask is mod 2^n",
         "an exception raised on an `assert` line of fp_math.py (AssertionError, or OverflowError from np.intN(python_int)) is the function rejecting its operand",
